@@ -635,9 +635,11 @@ package server
 // (C17) every replica of an encrypted stream - not only its leader - has the encryption handler: a follower serves
 // subscribers too (ReadISRReplica) and opens the values with it
 //@ ghost var encryptionWanted bool
-//@ func (*Server).newPartition serves C06, C17
+// (C16) whether a stream checks expected offsets is the server-wide switch unless the stream overrides it
+//@ func (*Server).newPartition serves C06, C17, C16
 //@   returns (p, err)
 //@   requires protoPartition != nil
+//@   call ApplyOverrides requires [C16:the-server-wide-switch-is-the-default] arg0.ConcurrencyControl == s.config.Streams.ConcurrencyControl
 //@   ghost after call ApplyOverrides: ghost.encryptionWanted := streamsConfig.Encryption
 //@   ensures [C17:every-replica-of-an-encrypted-stream-has-the-handler] err == nil && ghost.encryptionWanted ==> p != nil && p.encryptionHandler != nil
 //@   ghost at entry: ghost.roApplied := false
